@@ -42,67 +42,93 @@ Definition ann_get (k : N) (l : list (N * (addr * Z))) : option (addr * Z) :=
 Definition user_get (c : addr) (l : list (addr * N)) : option N :=
   match find (fun p => addr_eqb (fst p) c) l with Some p => Some (snd p) | None => None end.
 
-Definition k_step (st : kst) (o : tstep_obs) : bool * kst :=
-  let now' := k_now st + match ts_ev o with TTick dt => Z.max 0 dt | _ => 0 end in
-  let acts := ts_acts o in
-  let no_block := negb (existsb (fun a => match a with TBlocked => true | _ => false end) acts) in
-  (* new announcements *)
-  let anns := flat_map (fun a => match a, ts_ev o with
-                                 | TSuccess _ MConnect _ (Some k), TConnect c _ _ _ _ _ _ => [(k, (c, now'))]
-                                 | TAttempt c _ k, _ => [(k, (c, now'))]
-                                 | _, _ => [] end) acts in
-  let fresh := forallb (fun p => match ann_get (fst p) (k_ann st) with None => true | Some _ => false end) anns
-               && nodupb N.eqb (map fst anns) in
-  (* inbound attempts only from permitted peers *)
-  let attempts_ok := forallb (fun a => match a with
-                                       | TAttempt c p _ => existsb (fun q => addr_eqb (fst q) c && (snd q =? ip p)%N) (k_perms st)
-                                       | _ => true end) acts in
-  (* binds *)
-  let binds_ok := forallb (fun a => match a, ts_ev o with
-                     | TBindSuccess _ _ k, TConnBind _ _ au (Some k') =>
-                         (k =? k')%N && negb (existsb (N.eqb k) (k_bound st)) && negb (existsb (N.eqb k) (k_gone st)) &&
-                         match ann_get k (k_ann st) with
-                         | Some (c, t0) => (now' <? t0 + bind_timeout) &&
-                                           match au, user_get c (k_users st) with Some u, Some u' => (u =? u')%N | _, _ => false end
-                         | None => false end
-                     | TBindSuccess _ _ _, _ => false
-                     | _, _ => true end) acts in
-  (* data only through bound pairs, and exactly what was written *)
-  let data_ok := forallb (fun a => match a, ts_ev o with
-                     | TDeliver k toc d, TData k' fromc d' => (k =? k')%N && Bool.eqb toc (negb fromc) && beqb d d' && existsb (N.eqb k) (k_bound st)
-                     | TDeliver _ _ _, _ => false
-                     | _, _ => true end) acts in
-  (* unbound connections: opened by announcements, ended by a bind, by the server closing them, by the allocation ending *)
-  let relay_of c := match find (fun p => addr_eqb (fst p) c) (k_relays st) with Some p => Some (snd p) | None => None end in
-  let open1 := map (fun p => (fst p, (fst (snd p), match ts_ev o with TConnect _ _ _ (Some pr) _ _ _ => pr | TPeerConn _ pr _ => pr | _ => fst (snd p) end, snd (snd p)))) anns
+(* ---- the pieces of one step of the trace predicate ---- *)
+Definition k_time (st : kst) (e : tevent) : Z := k_now st + match e with TTick dt => Z.max 0 dt | _ => 0 end.
+Definition k_noblock (acts : list taction) : bool :=
+  negb (existsb (fun a => match a with TBlocked => true | _ => false end) acts).
+(* new announcements *)
+Definition k_anns (now' : Z) (e : tevent) (acts : list taction) : list (N * (addr * Z)) :=
+  flat_map (fun a => match a, e with
+                     | TSuccess _ MConnect _ (Some k), TConnect c _ _ _ _ _ _ => [(k, (c, now'))]
+                     | TAttempt c _ k, _ => [(k, (c, now'))]
+                     | _, _ => [] end) acts.
+Definition k_fresh (st : kst) (anns : list (N * (addr * Z))) : bool :=
+  forallb (fun p => match ann_get (fst p) (k_ann st) with None => true | Some _ => false end) anns
+  && nodupb N.eqb (map fst anns).
+(* inbound attempts only from permitted peers *)
+Definition k_attempts (st : kst) (acts : list taction) : bool :=
+  forallb (fun a => match a with
+                    | TAttempt c p _ => existsb (fun q => addr_eqb (fst q) c && (snd q =? ip p)%N) (k_perms st)
+                    | _ => true end) acts.
+(* binds: the announced id, once, in time, by the owner's user *)
+Definition k_binds (st : kst) (now' : Z) (e : tevent) (acts : list taction) : bool :=
+  forallb (fun a => match a, e with
+     | TBindSuccess _ _ k, TConnBind _ _ au (Some k') =>
+         (k =? k')%N && negb (existsb (N.eqb k) (k_bound st)) && negb (existsb (N.eqb k) (k_gone st)) &&
+         match ann_get k (k_ann st) with
+         | Some (c, t0) => (now' <? t0 + bind_timeout) &&
+                           match au, user_get c (k_users st) with Some u, Some u' => (u =? u')%N | _, _ => false end
+         | None => false end
+     | TBindSuccess _ _ _, _ => false
+     | _, _ => true end) acts.
+(* data only through bound pairs, and exactly what was written *)
+Definition k_data (st : kst) (e : tevent) (acts : list taction) : bool :=
+  forallb (fun a => match a, e with
+     | TDeliver k toc d, TData k' fromc d' => (k =? k')%N && Bool.eqb toc (negb fromc) && beqb d d' && existsb (N.eqb k) (k_bound st)
+     | TDeliver _ _ _, _ => false
+     | _, _ => true end) acts.
+(* unbound connections: opened by announcements, ended by a bind, by the server closing them, by the allocation ending *)
+Definition k_relay_of (st : kst) (c : addr) : option addr :=
+  match find (fun p => addr_eqb (fst p) c) (k_relays st) with Some p => Some (snd p) | None => None end.
+Definition k_closed_here (st : kst) (acts : list taction) (e : N * (addr * addr * Z)) : bool :=
+  existsb (fun a => match a with
+                    | TPeerClosed r p => addr_eqb p (snd (fst (snd e))) && opt_eqb addr_eqb (k_relay_of st (fst (fst (snd e)))) (Some r)
+                    | _ => false end) acts.
+Definition k_open' (st : kst) (now' : Z) (e : tevent) (acts : list taction) : list (N * (addr * addr * Z)) :=
+  let anns := k_anns now' e acts in
+  let open1 := map (fun p => (fst p, (fst (snd p), match e with TConnect _ _ _ (Some pr) _ _ _ => pr | TPeerConn _ pr _ => pr | _ => fst (snd p) end, snd (snd p)))) anns
                ++ k_open st in
-  let open2 := filter (fun e => negb (existsb (fun a => match a with TBindSuccess _ _ k => (k =? fst e)%N | _ => false end) acts)) open1 in
-  let closed_here (e : N * (addr * addr * Z)) :=
-    existsb (fun a => match a with
-                      | TPeerClosed r p => addr_eqb p (snd (fst (snd e))) && opt_eqb addr_eqb (relay_of (fst (fst (snd e)))) (Some r)
-                      | _ => false end) acts in
-  let open3 := filter (fun e => negb (closed_here e)) open2 in
-  let open4 := match ts_ev o with TEnd c => filter (fun e => negb (addr_eqb (fst (fst (snd e))) c)) open3 | _ => open3 end in
-  (* the owner can bind a connection that is still open and unbound, within its 30 seconds *)
-  let owner_bind_ok := match ts_ev o with
-     | TConnBind _ _ (Some u) (Some k) =>
-         match find (fun e => (fst e =? k)%N) (k_open st) with
-         | Some e => if opt_eqb N.eqb (user_get (fst (fst (snd e))) (k_users st)) (Some u) && (now' <? snd (snd e) + bind_timeout)
-                     then existsb (fun a => match a with TBindSuccess _ _ k' => (k' =? k)%N | _ => false end) acts
-                     else true
-         | None => true end
-     | _ => true end in
-  (* and after 30 seconds an unbound connection is gone *)
-  let deadline_ok := forallb (fun e => now' <? snd (snd e) + bind_timeout) open4 in
-  let st' := {| k_now := now';
-                k_users := match ts_ev o with TAlloc c u _ => (c, u) :: k_users st | TEnd c => filter (fun p => negb (addr_eqb (fst p) c)) (k_users st) | _ => k_users st end;
-                k_perms := match ts_ev o with TPerm c i => (c, i) :: k_perms st | TEnd c => filter (fun p => negb (addr_eqb (fst p) c)) (k_perms st) | _ => k_perms st end;
-                k_ann := anns ++ k_ann st;
-                k_bound := flat_map (fun a => match a with TBindSuccess _ _ k => [k] | _ => [] end) acts ++ k_bound st;
-                k_gone := k_gone st;
-                k_relays := match ts_ev o with TAlloc c _ r => (c, r) :: k_relays st | _ => k_relays st end;
-                k_open := open4 |} in
-  (no_block && fresh && attempts_ok && binds_ok && data_ok && owner_bind_ok && deadline_ok, st').
+  let open2 := filter (fun x => negb (existsb (fun a => match a with TBindSuccess _ _ k => (k =? fst x)%N | _ => false end) acts)) open1 in
+  let open3 := filter (fun x => negb (k_closed_here st acts x)) open2 in
+  match e with TEnd c => filter (fun x => negb (addr_eqb (fst (fst (snd x))) c)) open3 | _ => open3 end.
+(* the owner can bind a connection that is still open and unbound, within its 30 seconds *)
+Definition k_owner_bind (st : kst) (now' : Z) (e : tevent) (acts : list taction) : bool :=
+  match e with
+  | TConnBind _ _ (Some u) (Some k) =>
+      match find (fun x => (fst x =? k)%N) (k_open st) with
+      | Some x => if opt_eqb N.eqb (user_get (fst (fst (snd x))) (k_users st)) (Some u) && (now' <? snd (snd x) + bind_timeout)
+                  then existsb (fun a => match a with TBindSuccess _ _ k' => (k' =? k)%N | _ => false end) acts
+                  else true
+      | None => true end
+  | _ => true end.
+(* and after 30 seconds an unbound connection is gone *)
+Definition k_deadline (now' : Z) (op : list (N * (addr * addr * Z))) : bool :=
+  forallb (fun x => now' <? snd (snd x) + bind_timeout) op.
+(* an Allocate that succeeds is reported once per allocation: a TAlloc for a client that still has one changes nothing
+   (the model ignores it as well) *)
+Definition k_state' (st : kst) (now' : Z) (e : tevent) (acts : list taction) : kst :=
+  let known c := match user_get c (k_users st) with Some _ => true | None => false end in
+  {| k_now := now';
+     k_users := match e with
+                | TAlloc c u _ => if known c then k_users st else (c, u) :: k_users st
+                | TEnd c => filter (fun p => negb (addr_eqb (fst p) c)) (k_users st)
+                | _ => k_users st end;
+     k_perms := match e with TPerm c i => (c, i) :: k_perms st | TEnd c => filter (fun p => negb (addr_eqb (fst p) c)) (k_perms st) | _ => k_perms st end;
+     k_ann := k_anns now' e acts ++ k_ann st;
+     k_bound := flat_map (fun a => match a with TBindSuccess _ _ k => [k] | _ => [] end) acts ++ k_bound st;
+     k_gone := k_gone st;
+     k_relays := match e with
+                 | TAlloc c _ r => if known c then k_relays st else (c, r) :: k_relays st
+                 | TEnd c => filter (fun p => negb (addr_eqb (fst p) c)) (k_relays st)
+                 | _ => k_relays st end;
+     k_open := k_open' st now' e acts |}.
+
+Definition k_step (st : kst) (o : tstep_obs) : bool * kst :=
+  let now' := k_time st (ts_ev o) in
+  let acts := ts_acts o in
+  (k_noblock acts && k_fresh st (k_anns now' (ts_ev o) acts) && k_attempts st acts && k_binds st now' (ts_ev o) acts &&
+   k_data st (ts_ev o) acts && k_owner_bind st now' (ts_ev o) acts && k_deadline now' (k_open' st now' (ts_ev o) acts),
+   k_state' st now' (ts_ev o) acts).
 
 Fixpoint holds_from (st : kst) (steps : list tstep_obs) : bool :=
   match steps with
